@@ -134,13 +134,31 @@ mod verif_nx_pipeline {
     // C03 (idempotence), C08 (canonical whitespace), C09 (line endings), C10 (tabs vs spaces) on well-formed programs
     #[test]
     fn verif_nx_pipeline_wellformed() {
+        let handles: Vec<_> = (0..4usize).map(|k| std::thread::spawn(move || wellformed_shard(k, 4))).collect();
+        let mut n = 0u64;
+        for h in handles {
+            match h.join() {
+                Ok(c) => n += c,
+                Err(e) => std::panic::resume_unwind(e),
+            }
+        }
+        println!("NX pipeline_wellformed: {} cases", n);
+        assert!(n > 15_000, "enumeration ran");
+    }
+
+    fn wellformed_shard(shard: usize, shards: usize) -> u64 {
         let lf = leak(config(false, 2, 2, false, 40, false));
         let crlf = leak(config(false, 2, 2, true, 40, false));
         let wide_sp = leak(config(false, 3, 2, false, 100_000, false));
         let wide_tab = leak(config(true, 3, 2, false, 100_000, false));
         let wide_sp2 = leak(config(false, 2, 2, false, 100_000, false));
         let mut n = 0u64;
+        let mut pi = 0usize;
         programs(&mut |p| {
+            pi += 1;
+            if pi % shards != shard {
+                return;
+            }
             let (out, _) = fmt(lf, p, Vec::new());
             let (again, _) = fmt(lf, &out, Vec::new());
             assert!(again == out, "OB pipeline/idempotent: formatting the formatter's own output changes nothing\n input={:?}\n first={:?}\n second={:?}", p, out, again);
@@ -191,8 +209,7 @@ mod verif_nx_pipeline {
             assert!(tb_as_sp == sp, "OB pipeline/tabs_render_as_spaces: replacing each leading tab by tab_width spaces gives the use_tabs=false result\n input={:?}\n tabs={:?}\n spaces={:?}", p, tb, sp);
             n += 1;
         });
-        println!("NX pipeline_wellformed: {} cases", n);
-        assert!(n > 15_000, "enumeration ran");
+        n
     }
 
     // C07: a region between `pasfmt off` and `pasfmt on` is emitted byte for byte, wherever it is placed
@@ -341,6 +358,20 @@ mod verif_nx_pipeline {
 
     #[test]
     fn verif_nx_pipeline_structure() {
+        // four shards run in parallel; the test passes when every shard has enumerated its part
+        let handles: Vec<_> = (0..4usize).map(|k| std::thread::spawn(move || structure_shard(k, 4))).collect();
+        let mut n = 0u64;
+        for h in handles {
+            match h.join() {
+                Ok(c) => n += c,
+                Err(e) => std::panic::resume_unwind(e),
+            }
+        }
+        println!("NX pipeline_structure: {} cases", n);
+        assert!(n > 3_000, "enumeration ran");
+    }
+
+    fn structure_shard(shard: usize, shards: usize) -> u64 {
         let auto = leak(config(false, 2, 2, false, 120, false));
         let wrap = leak(config(false, 2, 2, false, 120, true));
         let mut n = 0u64;
@@ -350,7 +381,7 @@ mod verif_nx_pipeline {
         let sections: [&[&str]; 5] = [&[], &["var", "  L: Integer;"], &["const", "  K = 1;"], &["type", "  R = Integer;"], &["var", "  L: Integer;", "  M: Byte;"]];
         for (depth, stride) in [(0usize, 1usize), (1, 1)] {
             for (li, body) in lists(depth).iter().enumerate() {
-                if li % stride != 0 {
+                if li % stride != 0 || li % shards != shard {
                     continue;
                 }
                 // every routine kind, every kind of preceding unit-level section and local section (rotating, to keep the count bounded)
@@ -381,8 +412,7 @@ mod verif_nx_pipeline {
                 }
             }
         }
-        println!("NX pipeline_structure: {} cases", n);
-        assert!(n > 3_000, "enumeration ran");
+        n
     }
 
 }
